@@ -1,7 +1,9 @@
 """C03 — physical bounds of the battery models: 0 <= rate <= pilot, power <= max power, the
 stored charge never decreases and never exceeds capacity, along every history and for every
-noise draw.  (The engine in this module — running histories on the real objects, the wire format,
-the comparison — is shared with C14.)"""
+noise draw — at the battery, through EV.charge, through set_pilot of every EVSE class (with the
+pilots the class accepts only within its tolerance), and as recorded by a whole simulation
+(0 <= charging_rates <= pilot_signals at every station and period).  (The engine in this module —
+running histories on the real objects, the wire format, the comparison — is shared with C14.)"""
 from __future__ import annotations
 
 import copy
@@ -11,7 +13,8 @@ from core.common import f2b, b2f, close
 from core import impl as I
 
 ID = "C03"
-LEAN_MODULES = ["AcnProofs.C03", "AcnProofs.Lemmas.CodeTieBattery"]
+LEAN_MODULES = ["AcnProofs.C03"]
+TIE_MODULES = ["AcnProofs.Lemmas.CodeTieBattery"]
 DRIVER = "drv_C03"
 REQUIRED_THEOREMS = [
     "Acn.C03.ideal_bounds", "Acn.C03.stepwise_bounds", "Acn.C03.ideal_stepwise_reject",
@@ -30,7 +33,15 @@ TRUSTED = [
 ASSUMPTIONS = [
     "theorems over an arbitrary linear ordered field (ideal, stepwise) / over R (continuous); the "
     "implementation computes in doubles (validated by correspondence within 1e-9, not proved)",
-    "reachable states: capacity > 0, init <= capacity, max power >= 0, 0 <= ts < 1 (constructor guards); pilot >= 0",
+    "reachable states: capacity > 0, init <= capacity, max power >= 0, 0 <= ts < 1 (constructor guards); pilot >= 0 "
+    "(an EVSE with minimum 0 accepts pilots in [-1e-3, 0): after such a call the history / the station is skipped by the oracle)",
+    "whole simulations (the sim stream) are judged by the implementation-only oracle; their model correspondence is "
+    "C01/C02's (theorem C02.sim_rate_le_pilot); the EVSE path is modelled (Evse.setPilotSt / runPilots) and compared",
+    "whether an EVSE accepts or refuses a pilot is C13's property: here the decision is only compared with the model, and "
+    "the oracle demands that a refused call changed nothing",
+    "positive pilots below 1e-9 A are not generated: with pilot/max current below ~1e-13 the continuous two-stage law's "
+    "pilot_transition_soc rounds to 1.0 in doubles and a FULL battery (SoC = 1) divides by zero (ZeroDivisionError for a "
+    "Python float, NaN rate and NaN stored charge for the numpy.float64 a Simulator passes) - reported, not modelled",
 ]
 RULE = ("per case one battery (ideal / two-stage continuous / two-stage stepwise; capacities, max powers, "
         "transition SoCs, noise levels 0..10 kW; initial SoC at 0, ts, pts±eps, the linear/crossing boundary, 1-eps, 1, "
@@ -39,7 +50,17 @@ RULE = ("per case one battery (ideal / two-stage continuous / two-stage stepwise
         "fills the battery, noise draws from N(0, level), 0, and draws far larger than the period's gain; reset(None | "
         "value | value > capacity); a malformed stream (V<=0, T<=0, negative pilots, init > capacity, ts outside [0,1), "
         "capacity 0, max power 0); an exact dyadic stream (capacity 64, V=125*2^k, T=60*2^k, dyadic charges) on which the "
-        "bounds are checked with zero slack.  non-trivial = some returned charge call with pilot > 0 in which a bound is "
+        "bounds are checked with zero slack; an EVSE stream (30%): the battery's EV plugged into an EVSE of every class "
+        "(continuous with min 0 / min > 0 / unbounded, deadband with end 5.5/6/8, finite ClipperCreek / AeroVironment / "
+        "random rate lists) and a history of 1-20 set_pilot calls (plus resets, V<=0, T<=0) whose pilots seek the edges "
+        "of the class's acceptance set: positive values within tolerance of 0 (1e-9..9.99e-4, 'solver residue'), values "
+        "up to 1e-3 BELOW a lower edge (deadband end, minimum rate, a listed rate), up to 1e-3 ABOVE the maximum / a "
+        "listed rate, the razor edge, values just outside (refused), negative values, interior values, on batteries "
+        "that can mostly still take far more than the pilot; a simulation stream (5%): 1-4 stations covering the "
+        "classes (never only continuous), 1-2 sessions back to back per station, period 0.5..15, a scripted scheduler "
+        "asked every period (or every 2-3 periods with multi-period schedules) that sends such edge pilots to every "
+        "station, judged on the recorded pilot_signals / charging_rates matrices and the final batteries.  "
+        "non-trivial = a simulation in which an EV charged under an edge pilot, or some returned charge call with pilot > 0 in which a bound is "
         "active (rate within 1e-6 of the pilot or of 0, power within 1e-6 of the maximum, charge within 1e-6 of capacity) "
         "or a two-stage battery in the crossing / rampdown regime or with the noise clamp active; distinct by case hash")
 
@@ -724,9 +745,13 @@ def oracle(case, obs):
             fails.append({"kind": "noise_negative_rate" if f1 else "charge_decreased", "detail": f"{w}: charge {b['charge']!r} -> {ch!r}"})
         if not _le(ch, cap, sl):
             fails.append({"kind": "charge_exceeds_capacity", "detail": f"{w}: charge {ch!r} > capacity {cap!r}"})
-        if p == 0 and (rate != 0 or ch != b["charge"] or pw != 0):
+        # (doubles: a filled ideal/stepwise battery may sit one ulp ABOVE capacity, its rate_to_full is then
+        # about -1e-15 and wins the min(); hence the slack outside the exact stream, as for the other bounds)
+        if p == 0 and (abs(rate) > sl or abs(ch - b["charge"]) > sl * max(1.0, abs(ch)) or abs(pw) > sl):
             fails.append({"kind": "zero_pilot_charges", "detail": f"{w}: rate {rate!r} charge {b['charge']!r}->{ch!r} power {pw!r}"})
-        want_draws = 1 if (noise > 0 and kind in ("cont", "step") and not (kind == "cont" and p == 0)) else 0
+        # the continuous calculation returns before the draw for a zero pilot and (fix F18) for a full battery
+        full = cap != 0 and b["charge"] / cap >= 1
+        want_draws = 1 if (noise > 0 and kind in ("cont", "step") and not (kind == "cont" and (p == 0 or full))) else 0
         if st["draws"] != want_draws:
             fails.append({"kind": "noise_draws", "detail": f"{w}: {st['draws']} draws, expected {want_draws}"})
         if "delivered" in st:
